@@ -307,6 +307,21 @@ structure Inv (m : Mem) (d : Disk) : Prop where
   ids : m.vs.fams.map (·.id) = m.fams.map (·.opt.id)
   pend : ∀ f ∈ m.fams, ∀ x ∈ f.pending, x < m.vs.next ∧ ∀ v, m.vs.verOf f.opt.id = some v → x ∉ v.nums
   builder : ∀ f ∈ m.fams, ∀ fl, f.flusher = some fl → ∀ n c, fl.builder = some (n, c) → n ∈ f.pending
+  seq : 0 ≤ m.familySeq ∧ ∀ f ∈ m.fams, f.opt.id ≤ m.familySeq
+
+theorem foldl_maxId (l : List FamOpt) (a : Int) :
+    a ≤ l.foldl (fun m o => if m < o.id then o.id else m) a ∧
+    ∀ o ∈ l, o.id ≤ l.foldl (fun m o => if m < o.id then o.id else m) a := by
+  induction l generalizing a with
+  | nil => simp
+  | cons x t ih =>
+    simp only [List.foldl_cons, List.mem_cons]
+    have h1 := ih (if a < x.id then x.id else a)
+    refine ⟨?_, ?_⟩
+    · have := h1.1; split at this <;> omega
+    · rintro o (rfl | ho)
+      · have := h1.1; split at this <;> omega
+      · exact h1.2 o ho
 
 /-- explicit form of newStore's result and trace when recovery succeeds -/
 theorem openStore_ok (cfg : Cfg) (d : Disk) (vs : VS) (hrec : recoverVS cfg d = (vs, true)) :
@@ -447,7 +462,7 @@ theorem open_consistent (cfg : Cfg) (d : Disk) (a : Abs) (h : Consistent cfg d a
       rw [applyFsList_append]
     rw [hfinal]
     obtain ⟨vs', hrec', hf', hwf', hn', hnums', hcur'⟩ := hfin.1.recov
-    refine ⟨?_, hfin.2, ?_, ?_, hwf, ?_, ?_, ?_⟩
+    refine ⟨?_, hfin.2, ?_, ?_, hwf, ?_, ?_, ?_, ?_⟩
     · have := hfin.1.reref cfg
       simpa [Mem.info, List.map_map, Function.comp_def, hinfo, hfams] using this
     · simp only [n]; omega
@@ -464,6 +479,11 @@ theorem open_consistent (cfg : Cfg) (d : Disk) (a : Abs) (h : Consistent cfg d a
       simp only [List.mem_map] at hf
       obtain ⟨o, _, rfl⟩ := hf
       simp at hfl
+    · refine ⟨(foldl_maxId _ 0).1, ?_⟩
+      intro f hf
+      simp only [List.mem_map] at hf
+      obtain ⟨o, ho, rfl⟩ := hf
+      exact (foldl_maxId _ 0).2 o ho
 
 /-! ### one commit = one appended record -/
 
